@@ -65,7 +65,12 @@ func (f *NameField) GenEncodeInto() (string, error) {
 
 func (f *NameField) GenReadFrom() (string, error) {
 	var g strErrBuf
-	const Temp = `value.{{.Name}} = make(enc.Name, l/2+1)
+	const Temp = `if uint64(l) > uint64(reader.Length()-reader.Pos()) {
+		// the announced length comes from the wire: never allocate more than the input can still supply
+		err = io.ErrUnexpectedEOF
+		break
+	}
+	value.{{.Name}} = make(enc.Name, l/2+1)
 	startName := reader.Pos()
 	endName := startName + int(l)
 	for j := range value.{{.Name}} {
